@@ -9,7 +9,8 @@ else `EAGAIN` when non-blocking — and BLOCKS when neither `O_NONBLOCK` nor `MS
 -/
 namespace SigHook.Pipe
 
-inductive Kind where | pipe | stream | dgram
+/-- `other` = a descriptor that is not a socket and refuses `F_SETFL` (e.g. an `O_PATH` descriptor) -/
+inductive Kind where | pipe | stream | dgram | other
 deriving DecidableEq, Repr
 
 structure Fd where
@@ -32,6 +33,18 @@ def probe (fd : Fd) : Probe :=
   | .pipe => .other
   | .stream => .zero
   | .dgram => if fd.fill < fd.cap then .zero else .eagain
+  | .other => .other
+
+/-- `set_flags` (`F_GETFL` + `F_SETFL(O_NONBLOCK)`) succeeds on pipes (and would on sockets) -/
+def setFlagsOk (fd : Fd) : Bool := fd.kind != .other
+
+/-- `register_raw` up to the registration: `none` = rejected with the OS error of `set_flags`; the
+descriptor is then closed by the drop of the `WakeFd` that already owns it -/
+def prepare (fd : Fd) : Option (Method × Fd) × Fd :=
+  match probe fd with
+  | .zero | .eagain => (some (.send, fd), fd)
+  | .other => if setFlagsOk fd then (some (.write, { fd with nonblock := true }), { fd with nonblock := true })
+              else (none, { fd with closes := fd.closes + 1 })
 
 /-- `register_raw` up to the registration itself: the chosen method and the descriptor's flags -/
 def classify (fd : Fd) : Method × Fd :=
